@@ -293,6 +293,12 @@ LEDGER_STATEMENTS = [
     ('SELECT date, account, balance FROM #postings WHERE currency = %s', [['USD'], ['HOOL']]),
     ('SELECT account, convert(sum(position), %s) AS c GROUP BY account ORDER BY account', [['USD'], ['EUR']]),
     ('SELECT account, other_accounts, weight, meta(%s) AS m WHERE number > %s', [['note', 0], ['fee', 10]]),
+    # look-ups with a fall-back (posting, then transaction) read the metadata, they never add to it
+    ('SELECT account, any_meta(%s) AS a, entry_meta(%s) AS e FROM #postings', [['when', 'when'], ['ref', 'note'], ['nope', 'fee']]),
+    ("SELECT account, meta(%s) AS m, meta['when'] AS s FROM #postings", [['when'], ['ref'], ['nope']]),
+    ('SELECT count(*) AS n FROM #postings WHERE meta(%s) IS NULL', [['when'], ['ref'], ['nope']]),
+    ("JOURNAL 'Food' AT units", [None]),
+    ('JOURNAL AT units', [None]),
 ]
 import datetime  # noqa: E402
 LEDGER_STATEMENTS[1] = ('SELECT account, balance, position, balance WHERE date >= %s',
